@@ -245,22 +245,29 @@ func chanOp(st []frame) string {
 	return ""
 }
 
-// candidates: the fields the innermost library frame of an access may touch
+// candidates: the fields the innermost library frame of an access may touch; when that frame is a generic
+// helper whose line names no field (CopyMAC, fmt glue), the nearest caller frame that names one decides
 func (o *observation) candidates(st []frame) (cands []string, where string) {
 	for _, f := range st {
 		if !strings.HasPrefix(f.fn, libPrefix) {
 			continue
 		}
 		ck := fmt.Sprintf("%s|%s|%d", f.fn, f.file, f.line)
+		var e candEntry
 		if v, ok := candCache.Load(ck); ok {
-			e := v.(candEntry)
-			return e.cands, e.where
+			e = v.(candEntry)
+		} else {
+			e.cands, e.where = o.candidates1(f)
+			candCache.Store(ck, e)
 		}
-		cands, where = o.candidates1(f)
-		candCache.Store(ck, candEntry{cands, where})
-		return cands, where
+		if where == "" {
+			where = e.where
+		}
+		if len(e.cands) > 0 {
+			return e.cands, where
+		}
 	}
-	return nil, ""
+	return nil, where
 }
 
 func (o *observation) candidates1(f frame) (cands []string, where string) {
